@@ -509,7 +509,6 @@ func TestC03(t *testing.T) {
 	})
 }
 
-
 // c03Forms are operand forms of every syntactic and type class.
 var c03Forms = []string{
 	`"s"`, `/re(\d+)/`, `X`, `"a" + X`, `X + "a"`, `/r/ + X`, `X + Y`, `$1`, `$0`, `$nope`,
